@@ -24,8 +24,8 @@ package main
 //
 // The history is one long sequence per process because state carries over (that is the point:
 // whether a reload completes must not depend on what happened before). Quick: a de Bruijn sequence
-// containing every ordered pair of step kinds, then a rapid-drawn tail; thorough: every ordered
-// triple and a longer tail. A violation file holds the history from process start up to the failing
+// containing every ordered triple of step kinds, then a rapid-drawn tail; thorough: every ordered
+// quadruple and a longer tail. A violation file holds the history from process start up to the failing
 // step; --replay plays it in a fresh process.
 
 import (
@@ -313,6 +313,29 @@ type c13hViol struct{ key, msg string }
 func (s *c13hSrv) judge(where, key, msg string) (*c13hViol, string) {
 	switch key {
 	case "transport":
+		// the connection was closed without an answer (that is what net/http does when a handler
+		// panics): not a matter of time. Confirmed by three more attempts on fresh connections.
+		if !strings.Contains(msg, "Timeout") && !strings.Contains(msg, "timeout") && !strings.Contains(msg, "deadline") {
+			again := 0
+			last := msg
+			for i := 0; i < 3; i++ {
+				s.client.CloseIdleConnections()
+				_, k, m := s.register("dual")
+				if k == "transport" && !strings.Contains(m, "imeout") && !strings.Contains(m, "deadline") {
+					again++
+					last = m
+				}
+			}
+			select {
+			case <-s.mainDone:
+				return nil, fmt.Sprintf("%s: main() has returned: %v; log: %s", where, s.fatal.Load(), s.logs.tail(400))
+			default:
+			}
+			if again == 3 {
+				return &c13hViol{"sighup:request-not-answered", fmt.Sprintf("%s: the registrar closes the connection without answering valid registrations (4 attempts, last error: %s)", where, last)}, ""
+			}
+			return nil, fmt.Sprintf("%s: registration got no answer once (%s) but later attempts were answered", where, msg)
+		}
 		// no answer within c13hReqTimeout: a verdict only if the dump shows the registrar wedged
 		if up := c13hLockedUp(); up != "" {
 			return &c13hViol{"sighup:request-not-answered", fmt.Sprintf("%s: registration got no answer (%s) and goroutines wait for registrar locks: %s", where, msg, up)}, ""
@@ -454,7 +477,7 @@ func c13hDeBruijn(k, n int) []int {
 }
 
 func TestVerif_C13_sighup(t *testing.T) {
-	rec := vh.NewRec("C13", "sighup", "the real main() of cmd/registration-server, started once per process (-api-only, ZMQ auth NULL, free ports), driven by one long history of operator steps {valid: all files fine, fresh disjoint subnet set; badsubnets; nosubnets; badconf; nocc; badcc}, each followed by SIGHUP to the own pid and observed through HTTP registrations; the history is a de Bruijn sequence over the six step kinds (quick: every ordered pair, thorough: every ordered triple) followed by a rapid-drawn tail; two request loops run throughout. One evaluation = one step (with the whole history before it); non-trivial = a valid step that follows a failed one; distinct by history prefix")
+	rec := vh.NewRec("C13", "sighup", "the real main() of cmd/registration-server, started once per process (-api-only, ZMQ auth NULL, free ports), driven by one long history of operator steps {valid: all files fine, fresh disjoint subnet set; badsubnets; nosubnets; badconf; nocc; badcc}, each followed by SIGHUP to the own pid and observed through HTTP registrations; the history is a de Bruijn sequence over the six step kinds (quick: every ordered triple, thorough: every ordered quadruple) followed by a rapid-drawn tail; two request loops run throughout. One evaluation = one step (with the whole history before it); non-trivial = a valid step that follows a failed one; distinct by history prefix")
 	defer rec.Flush()
 	var hist []string
 	replay := vh.ReplayFile() != ""
@@ -467,7 +490,7 @@ func TestVerif_C13_sighup(t *testing.T) {
 	} else {
 		rec.Require("valid-after-failed", "valid-after-valid", "failed:badsubnets", "failed:nosubnets", "failed:badconf", "failed:nocc", "failed:badcc", "concurrent-requests")
 		shard, _ := vh.Shard()
-		for _, x := range c13hDeBruijn(len(c13hKinds), vh.Pick(2, 3)) {
+		for _, x := range c13hDeBruijn(len(c13hKinds), vh.Pick(3, 4)) {
 			hist = append(hist, c13hKinds[x])
 		}
 		if shard%2 == 1 { // odd shards play the enumeration backwards
@@ -475,7 +498,7 @@ func TestVerif_C13_sighup(t *testing.T) {
 				hist[i], hist[j] = hist[j], hist[i]
 			}
 		}
-		tail := rapid.SliceOfN(rapid.SampledFrom([]string{"valid", "valid", "valid", "badsubnets", "nosubnets", "badconf", "nocc", "badcc"}), vh.Pick(40, 400), vh.Pick(40, 400)).
+		tail := rapid.SliceOfN(rapid.SampledFrom([]string{"valid", "valid", "valid", "badsubnets", "nosubnets", "badconf", "nocc", "badcc"}), vh.Pick(100, 1000), vh.Pick(100, 1000)).
 			Example(int(vh.Seed())*1000 + shard)
 		hist = append(hist, tail...)
 	}
@@ -549,7 +572,7 @@ func TestVerif_C13_sighup(t *testing.T) {
 			finish()
 			t.Fatalf("harness problem: step %d (%s): %s", i, kind, harness)
 		}
-		rec.Case(kind == "valid" && prevFailed, vh.Digest(c), c13hCase{Steps: append([]string{"..."}, hist[max(0, i-3):i+1]...)}, classes...)
+		rec.Case(kind == "valid" && prevFailed, vh.Digest(c), c13hCase{Steps: append([]string{"..."}, hist[c13hMax0(i-3):i+1]...)}, classes...)
 		if v != nil {
 			finish()
 			rec.Violation(t, v.key, c, "step %d (%s) of history %v: %s", i, kind, c13hShort(c.Steps), v.msg)
@@ -572,4 +595,11 @@ func c13hShort(steps []string) []string {
 		return steps
 	}
 	return append(append([]string{}, "... "+fmt.Sprint(len(steps)-10)+" earlier steps ..."), steps[len(steps)-10:]...)
+}
+
+func c13hMax0(i int) int {
+	if i < 0 {
+		return 0
+	}
+	return i
 }
